@@ -16,6 +16,7 @@ def volumes(tier):
         ("1TiB+", 512, 2147483648 + 4099, None),            # just past the 1 TiB mark
         ("2TiB-512", 512, 4294967295, None),                # the format's limit with 512-byte sectors
         ("16GiB-4Ksec", 4096, 4194304, 4096),
+        ("640GiB-c4k", 512, 1342177280, 4096),              # more than 2^27 clusters: FAT entry offsets beyond 512 MiB
     ]
     # volumes whose FAT has no spare entry behind the last cluster (entries = clusters + 2): a scan that reads past the last
     # entry leaves the table; found with the library's own format through the boot-sector hook
@@ -26,7 +27,7 @@ def volumes(tier):
     if tier == "thorough":
         v += [("fat32-cluster-limit-4K", 4096, 268435445 + 140000, 4096),   # close to 0x0FFFFFF4 clusters of one 4 KiB sector
               ("8TiB-4Ksec", 4096, 2147483648, 32768),
-              ("2TiB-512-c4k", 512, 4294967295, 4096)]
+              ("2TiB-512-c16k", 512, 4294967295, 16384)]
     return v
 
 def run(rep, tier, seed):
